@@ -66,6 +66,72 @@ pub fn run(case: &str) -> Option<Outcome> {
             let exp = "min_sentence(A) = ['b']";
             match grm(na, src) { Err(e) => out(true, e, exp), Ok(g) => { let s = g.sentence_generator(|_| 1).min_sentence(RIdx(u32::from(g.rule_idx("A").unwrap()))); out(s.len() != 1, format!("{} tokens", s.len()), exp) } }
         }
+        // C11: lexer specifications (flags in force, the escape rule, what the written regex denotes)
+        "c11_escaped_blank_under_ignore_whitespace" | "c11_hash_under_ignore_whitespace" | "c11_unbalanced_regex_is_refused" | "c11_unknown_flag_is_refused" => {
+            use lrlex::{DefaultLexerTypes, LRNonStreamingLexerDef, LexerDef};
+            use lrpar::{Lexeme, Lexer};
+            let (spec, input, want, exp): (&str, &str, Result<Vec<(usize, usize)>, ()>, &str) = match case {
+                "c11_escaped_blank_under_ignore_whitespace" => ("%grmtools{ignore_whitespace}\n%%\na\\ b 'x'\n", "a b", Ok(vec![(0, 3)]), "with ignore_whitespace an escaped blank still stands for a blank: \"a b\" is one lexeme"),
+                "c11_hash_under_ignore_whitespace" => ("%grmtools{ignore_whitespace}\n%%\na#b 'x'\nc 'y'\n", "a", Ok(vec![(0, 1)]), "with ignore_whitespace `a#b` is `a` followed by a comment: the specification is accepted and \"a\" is one lexeme"),
+                "c11_unbalanced_regex_is_refused" => ("%%\na)|(b 'x'\nc 'y'\n", "cb", Err(()), "`a)|(b` is not a regular expression: the specification is refused"),
+                _ => ("%grmtools{case_insensitve}\n%%\na 'x'\n", "a", Err(()), "a flag name that does not exist is refused"),
+            };
+            let r = catch_unwind(AssertUnwindSafe(|| {
+                let def = LRNonStreamingLexerDef::<DefaultLexerTypes<u32>>::from_str(spec).map_err(|_| ())?;
+                let lexer = def.lexer(input);
+                let mut v = Vec::new();
+                for l in lexer.iter() { match l { Ok(l) => v.push((l.span().start(), l.span().len())), Err(_) => { v.push((usize::MAX, 0)); break; } } }
+                Ok::<_, ()>(v)
+            }));
+            match r { Err(_) => out(true, "panic".into(), exp), Ok(got) => out(got != want, match &got { Ok(v) => format!("accepted; {:?} lexes as (start, length) {:?}", input, v), Err(()) => "refused".to_string() }, exp) }
+        }
+        // C20: the conflicts reported for one grammar are the same in every width
+        "c20_reported_conflicts_in_every_width" => {
+            use lrtable::{from_yacc, Minimiser};
+            let src = "%start S\n%%\nS: A | B | C;\nA: 'a';\nB: 'a';\nC: 'a';\n";
+            let exp = "the same reduce/reduce conflicts (pairs of productions) with u8, u16 and u32";
+            let yk = YaccKind::Original(YaccOriginalActionKind::NoAction);
+            let r = catch_unwind(AssertUnwindSafe(|| {
+                let g8 = YaccGrammar::<u8>::new_with_storaget(yk, src).ok()?; let (_, t8) = from_yacc(&g8, Minimiser::Pager).ok()?;
+                let g32 = YaccGrammar::<u32>::new_with_storaget(yk, src).ok()?; let (_, t32) = from_yacc(&g32, Minimiser::Pager).ok()?;
+                let mut a: Vec<(usize, usize)> = t8.conflicts()?.rr_conflicts().map(|(_, p, q, _)| (usize::from(*p), usize::from(*q))).collect();
+                let mut b: Vec<(usize, usize)> = t32.conflicts()?.rr_conflicts().map(|(_, p, q, _)| (usize::from(*p), usize::from(*q))).collect();
+                a.sort(); b.sort();
+                Some((a, b))
+            }));
+            match r { Err(_) => out(true, "panic".into(), exp), Ok(None) => out(false, "not built".into(), exp), Ok(Some((a, b))) => out(a != b, format!("u8 reports the pairs {:?}, u32 {:?}", a, b), exp) }
+        }
+        // C19: error pretty-printing does not panic on an error that points at two places
+        "c19_format_error_with_two_spans" => {
+            use lrpar::diagnostics::{DiagnosticFormatter, SpannedDiagnosticFormatter};
+            use std::str::FromStr;
+            let src = "%grmtools{yacckind: Foo::Bar}\n%%\nS: 'a';\n";
+            let exp = "every error of the specification is rendered";
+            let r = catch_unwind(AssertUnwindSafe(|| {
+                let info = cfgrammar::yacc::ast::ASTWithValidityInfo::from_str(src);
+                let errs = match info { Ok(i) => i.errors().to_vec(), Err(e) => e };
+                let f = SpannedDiagnosticFormatter::new(src, std::path::Path::new("g.y"));
+                errs.iter().map(|e| f.format_error(e.clone()).to_string()).collect::<Vec<_>>().join("|")
+            }));
+            match r { Err(_) => out(true, "panic".into(), exp), Ok(t) => out(t.is_empty(), format!("{} bytes of diagnostics", t.len()), exp) }
+        }
+        // C19: the conflict report of an Eco grammar whose conflict involves a production the constructor added
+        "c19_format_conflicts_of_an_added_production" => {
+            use lrlex::DefaultLexerTypes;
+            use lrpar::diagnostics::SpannedDiagnosticFormatter;
+            use lrtable::{from_yacc, Minimiser};
+            let src = "%start S\n%implicit_tokens WS\n%%\nS: 'a' | 'a' 'WS' ;\n";
+            let exp = "the conflicts are rendered";
+            let r = catch_unwind(AssertUnwindSafe(|| {
+                let info = cfgrammar::yacc::ast::ASTWithValidityInfo::new(YaccKind::Eco, src);
+                let g = YaccGrammar::<u32>::new_from_ast_with_validity_info(&info).ok()?;
+                let (sg, st) = from_yacc(&g, Minimiser::Pager).ok()?;
+                let c = st.conflicts()?;
+                let f = SpannedDiagnosticFormatter::new(src, std::path::Path::new("g.y"));
+                Some(f.format_conflicts::<DefaultLexerTypes<u32>>(&g, info.ast(), c, &sg, &st))
+            }));
+            match r { Err(_) => out(true, "panic".into(), exp), Ok(None) => out(false, "no conflicts to render".into(), exp), Ok(Some(t)) => out(t.is_empty(), format!("{} bytes of diagnostics", t.len()), exp) }
+        }
         // C07: a parse returns (in a child process: the failure is a stack overflow when the recoverer's copy of a deep
         // parse stack is freed)
         "c07_deeply_nested_input_returns" => return Some(in_child("c07_deep_inner", 60000, "the parse of 600000 opening and 600000 closing brackets (one n missing between them) returns, with one error and its repairs")),
